@@ -1316,3 +1316,85 @@ func rulePoolReset(c *Ctx) []Obligation {
 	}
 	return obs
 }
+
+// ---------------------------------------------------------------- FIND.SCHEMAID (w10 observation C07/O1)
+
+func init() {
+	register(&Rule{Name: "FIND.SCHEMAID", Props: []string{"C07", "C08", "C17"}, Floor: 2,
+		Doc: "the augment and the deviation applier resolve their target as a schema node identifier: a '..' (or '.') step, which the general path lookup follows, makes the lookup fail instead of leading somewhere else",
+		Run: ruleFindSchemaID})
+}
+
+func ruleFindSchemaID(c *Ctx) []Obligation {
+	const R = "FIND.SCHEMAID"
+	find := c.Fn("yang.(*Entry).Find")
+	if find == nil {
+		return []Obligation{undecided(R, "path lookup", "-", "(*Entry).Find not found")}
+	}
+	// does fn refuse a path with a ".." step: a comparison with the constant ".." one branch of which returns nil
+	refuses := func(fn *ssa.Function) bool {
+		okR := false
+		eachInstr(fn, func(in ssa.Instruction) {
+			bo, isB := in.(*ssa.BinOp)
+			if !isB || bo.Op != token.EQL && bo.Op != token.NEQ {
+				return
+			}
+			s1, is1 := constString(bo.X)
+			s2, is2 := constString(bo.Y)
+			if !(is1 && s1 == "..") && !(is2 && s2 == "..") {
+				return
+			}
+			// some return of nil is control dependent on it: reachable from this block, and not every return is
+			for _, b := range fn.Blocks {
+				r, isR := b.Instrs[len(b.Instrs)-1].(*ssa.Return)
+				if !isR || len(r.Results) != 1 || !isNilConst(resolveSpill(r.Results[0], r)) {
+					continue
+				}
+				if blockReaches(bo.Block(), b, nil) && !b.Dominates(bo.Block()) {
+					okR = true
+				}
+			}
+		})
+		return okR
+	}
+	wrappers := c.lookupWrappers(find)
+	var obs []Obligation
+	for _, name := range []string{"yang.(*Entry).Augment", "yang.(*Entry).ApplyDeviate"} {
+		fn := c.Fn(name)
+		con := fmt.Sprintf("%s: the target is resolved as a schema node identifier (no '..' step is followed)", name)
+		if fn == nil {
+			obs = append(obs, undecided(R, con, "-", name+" not found"))
+			continue
+		}
+		sites := c.callsToLookup(fn, find)
+		if len(sites) == 0 {
+			obs = append(obs, undecided(R, con, c.Pos(fn.Pos()), "no target lookup found"))
+			continue
+		}
+		bad1 := ""
+		for _, ci := range sites {
+			cal := ci.Common().StaticCallee()
+			if cal != nil && wrappers[cal] && refuses(cal) {
+				continue
+			}
+			// or the applier tests the path itself before the lookup
+			guarded := false
+			for _, g := range guardsAtDeep(ci.(ssa.Instruction).Block()) {
+				operandClosureDeep(g.Cond, func(x ssa.Value) {
+					if s, isS := constString(x); isS && s == ".." {
+						guarded = true
+					}
+				})
+			}
+			if !guarded {
+				bad1 = c.InstrPos(ci.(ssa.Instruction))
+			}
+		}
+		if bad1 == "" {
+			obs = append(obs, ok(R, con, c.InstrPos(sites[0].(ssa.Instruction)), "the lookup goes through a function that answers nil for a path with such a step"))
+		} else {
+			obs = append(obs, bad(R, con, bad1, "the target path goes to the general path lookup, which follows '.' and '..': augment \"/t:top/..\" grafts its nodes at the root of module t, \"/t:top/../t:other\" into another container, and nothing is reported"))
+		}
+	}
+	return obs
+}
